@@ -245,6 +245,22 @@ func (st *ReqState) Serve(r *rux.Router) (out Outcome) {
 	return
 }
 
+// ServeVia is Serve through another documented entry point: "HandleContext" dispatches a context the caller made.
+func (st *ReqState) ServeVia(r *rux.Router, entry string) (out Outcome) {
+	if entry != "HandleContext" {
+		return st.Serve(r)
+	}
+	func() {
+		defer func() { out.Escaped = recover() }()
+		c := &rux.Context{}
+		c.Init(st.Rec, st.Req)
+		r.HandleContext(c)
+	}()
+	st.FreezeCopies()
+	out.Trace, out.Log = st.Tr.String(), st.Rec.Log()
+	return
+}
+
 // Diff compares a real outcome with the model's; "" when equal.
 func Diff(real, want Outcome) string {
 	var ss []string
